@@ -1185,7 +1185,9 @@ fn file_id(rolling_millis: u32, rolling_id: u32) -> String {
 }
 
 fn read_file_name_ts(file_name: &str) -> Result<&str, io::Error> {
-    file_name.split('.').skip(1).next().ok_or_else(|| {
+    // File names are `{prefix}.{ts}.{counter}.{id}.{ext}`
+    // The prefix may contain `.`s itself, so count from the end
+    file_name.rsplit('.').nth(3).ok_or_else(|| {
         io::Error::new(
             io::ErrorKind::Other,
             "could not determine timestamp from filename",
